@@ -75,9 +75,10 @@ SendFails(t) == \E k \in DOMAIN script[t] : script[t][k].err = "sendfail"
 SSend ==
     /\ Running /\ spc = "send"
     /\ IF SendFails(si)
-       THEN /\ gerr' = IF gerr = "" THEN "send" ELSE gerr
-            /\ spc' = "done" /\ hasSent' = TRUE
-            /\ UNCHANGED <<si, swake, inflight, sent>>
+       THEN \* the goroutine returns its error: the deferred close(hasSent) runs now, errgroup cancels the group context only
+            \* afterwards (SPublish) - in between the receiver may still see a live context and poll once more
+            /\ spc' = "failed" /\ hasSent' = TRUE
+            /\ UNCHANGED <<gerr, si, swake, inflight, sent>>
        ELSE /\ sent' = Append(sent, [ttl |-> si, t |-> now])
             /\ inflight' = inflight \cup {[id |-> <<si, k>>, at |-> now + script[si][k].delay, r |-> script[si][k]] : k \in DOMAIN script[si]}
             /\ hasSent' = TRUE
@@ -114,9 +115,9 @@ RGot ==
        /\ CASE r.err \in {"bad", "nopkt"} ->                       \* CheckProbeRetryable: continue
                  rpc' = "loop" /\ UNCHANGED <<results, acc, wcancel, gerr>>
             [] r.err = "fatal" ->
-                 rpc' = "done" /\ gerr' = (IF gerr = "" THEN "recv" ELSE gerr) /\ UNCHANGED <<results, acc, wcancel>>
+                 rpc' = "failed_recv" /\ UNCHANGED <<results, acc, wcancel, gerr>>
             [] r.err = "nil" \/ (r.err = "" /\ (r.ttl < MinTTL \/ r.ttl > MaxTTL)) ->    \* validateProbe
-                 rpc' = "done" /\ gerr' = (IF gerr = "" THEN "invalid" ELSE gerr) /\ UNCHANGED <<results, acc, wcancel>>
+                 rpc' = "failed_invalid" /\ UNCHANGED <<results, acc, wcancel, gerr>>
             [] OTHER ->
                  LET p == [k |-> "hop", ttl |-> r.ttl, dest |-> r.dest, ip |-> r.ip, at |-> now, rtt |-> now - SentAt(r.ttl)] IN
                  /\ results' = Merge(results, p)
@@ -124,6 +125,17 @@ RGot ==
                  /\ wcancel' = (wcancel \/ r.dest)
                  /\ rpc' = "loop" /\ UNCHANGED gerr
     /\ UNCHANGED <<script, cancelAt, now, spc, si, swake, rdl, hasSent, tout, ext, inflight, sent, out>>
+
+\* errgroup: the first error a goroutine RETURNED cancels the group context - a separate step after the goroutine's own last step
+\* (the other goroutine can pass one more context check in between: one more probe sent, one more poll)
+SPublish ==
+    /\ Running /\ spc = "failed"
+    /\ spc' = "done" /\ gerr' = (IF gerr = "" THEN "send" ELSE gerr)
+    /\ UNCHANGED <<script, cancelAt, now, si, swake, rpc, rdl, hasSent, wcancel, tout, ext, inflight, queue, results, sent, acc, out>>
+RPublish ==
+    /\ Running /\ rpc \in {"failed_recv", "failed_invalid"}
+    /\ rpc' = "done" /\ gerr' = (IF gerr = "" THEN (IF rpc = "failed_recv" THEN "recv" ELSE "invalid") ELSE gerr)
+    /\ UNCHANGED <<script, cancelAt, now, spc, si, swake, rdl, hasSent, wcancel, tout, ext, inflight, queue, results, sent, acc, out>>
 
 RDeadline ==
     /\ Running /\ rpc = "recv" /\ Len(queue) = 0 /\ now = rdl
@@ -162,7 +174,7 @@ Finish ==
               ELSE [set |-> TRUE, ok |-> TRUE, err |-> "", hops |-> Clip(results), t |-> now]
     /\ UNCHANGED <<script, cancelAt, now, spc, si, swake, rpc, rdl, hasSent, wcancel, gerr, tout, ext, inflight, queue, results, sent, acc>>
 
-Instant == ENABLED SCheck \/ ENABLED SSend \/ ENABLED SWake \/ ENABLED RStart \/ ENABLED RLoop \/ ENABLED RGot
+Instant == ENABLED SPublish \/ ENABLED RPublish \/ ENABLED SCheck \/ ENABLED SSend \/ ENABLED SWake \/ ENABLED RStart \/ ENABLED RLoop \/ ENABLED RGot
            \/ ENABLED RDeadline \/ ENABLED Arrive \/ ENABLED TimeoutFire \/ ENABLED ExtCancel \/ ENABLED Finish
 
 \* next instants at which something can happen
@@ -176,7 +188,7 @@ Advance ==
        /\ now' = CHOOSE w \in W : \A v \in W : w <= v
     /\ UNCHANGED <<script, cancelAt, spc, si, swake, rpc, rdl, hasSent, wcancel, gerr, tout, ext, inflight, queue, results, sent, acc, out>>
 
-Next == SCheck \/ SSend \/ SWake \/ RStart \/ RLoop \/ RGot \/ RDeadline \/ Arrive \/ TimeoutFire \/ ExtCancel \/ Finish \/ Advance
+Next == SPublish \/ RPublish \/ SCheck \/ SSend \/ SWake \/ RStart \/ RLoop \/ RGot \/ RDeadline \/ Arrive \/ TimeoutFire \/ ExtCancel \/ Finish \/ Advance
 Spec == Init /\ [][Next]_vars
 FairSpec == Spec /\ WF_vars(Next)
 
